@@ -55,6 +55,7 @@ func parseHeaders(decodeFn qpack.DecodeFunc, isRequest bool, sizeLimit int, head
 	hdr := header{Headers: make(http.Header)}
 	var readFirstRegularHeader, readContentLength bool
 	var contentLengthStr string
+	pseudoHeadersSeen := make([]string, 0, 6)
 	for {
 		h, err := decodeFn()
 		if err != nil {
@@ -106,9 +107,11 @@ func parseHeaders(decodeFn qpack.DecodeFunc, isRequest bool, sizeLimit int, head
 			default:
 				return header{}, fmt.Errorf("unknown pseudo header: %s", h.Name)
 			}
-			if isDuplicatePseudoHeader {
+			// a pseudo header sent with an empty value still counts as present
+			if isDuplicatePseudoHeader || slices.Contains(pseudoHeadersSeen, h.Name) {
 				return header{}, fmt.Errorf("duplicate pseudo header: %s", h.Name)
 			}
+			pseudoHeadersSeen = append(pseudoHeadersSeen, h.Name)
 			if isRequest && isResponsePseudoHeader {
 				return header{}, fmt.Errorf("invalid request pseudo header: %s", h.Name)
 			}
